@@ -447,8 +447,25 @@ func c17HistoryWorker(c C17Hist, progress *atomic.Int32, done chan<- *Disc) {
 				return nil
 			}
 		}
+		reenter := 0
 		h := m.Wrap(http.HandlerFunc(func(w http.ResponseWriter, r *http.Request) {
-			m.Config() // a wrapped handler may call back into the middleware
+			// a wrapped handler may call back into the middleware that wraps it (an admin endpoint behind the same
+			// CORS middleware): Config, SetDebug and Reconfigure must return there, too
+			m.Config()
+			switch reenter++; reenter % 4 {
+			case 1:
+				m.SetDebug(reenter%8 == 1)
+			case 2:
+				if cur := m.Config(); cur != nil {
+					m.Reconfigure(cur)
+				}
+			case 3:
+				m.Reconfigure(nil)
+				if c.Start != nil {
+					x := c.Start.Cors()
+					m.Reconfigure(&x)
+				}
+			}
 			w.WriteHeader(200)
 		}))
 		for i, s := range c.Steps {
@@ -536,7 +553,7 @@ func c17HistCheck(c C17Hist, rec *Recorder) *Disc {
 
 func TestC17Hist(t *testing.T) {
 	Prop[C17Hist]{ID: "C17", Part: "calls-return", Gen: c17HistGen, Check: c17HistCheck,
-		Rule: "calls return: history of 2-12 calls on one middleware (zero value or any valid configuration): SetDebug(b), Reconfigure(nil | valid | junk | its own Config()), Config(), a request through a wrapped handler that itself calls Config(); run on a worker goroutine under a watchdog. " +
+		Rule: "calls return: history of 2-12 calls on one middleware (zero value or any valid configuration): SetDebug(b), Reconfigure(nil | valid | junk | its own Config()), Config(), a request through a wrapped handler that itself calls Config(), SetDebug, Reconfigure(Config()) or Reconfigure(nil)+Reconfigure(cfg) on the middleware that wraps it; run on a worker goroutine under a watchdog. " +
 			"Oracle: no panic, and the worker comes back; if it has not after 3 s, its scheduler state is read twice 300 ms apart: blocked on a lock/channel at the same call both times (no other goroutine uses that middleware) = a call that never returns; still running = slow, not judged. " +
 			"non-trivial = history with Reconfigure(nil) while debug is on, or >= 6 calls; distinct by history.",
 		Assumptions: []string{"a goroutine that is the only user of a middleware and sits in a lock-wait state for 3 s is deadlocked, not slow; a goroutine still running after 3 s is never a verdict"}}.Run(t)
